@@ -732,6 +732,9 @@ def _run_rm(case):
         return fails
     if not ok:
         return fails
+    # the mutated object itself: every field it exposes must describe its NEW parameters
+    if hasattr(r1, "evaluate_ln") and hasattr(r1, "Lambda") and hasattr(r1, "nu"):
+        _check_measure(fails, f"{op}:mutated_result", r1)
     if not _rm_same(_rm_probe(r2), before["r2"]):
         fails.append(Failure(f"{op}:second_result_changed", f"mutating the first result of {op} in place changed the result of a second, independent call"))
     for o, ref in zip(operands, before["ops"]):
